@@ -205,6 +205,45 @@ func reflectConfig(r *rand.Rand) string {
 		}
 		recv[name] = items
 	}
+	// a global default nulled (or emptied) together with a receiver of the kind that falls back on it
+	if gl, ok := doc["global"].(map[string]any); ok && r.Intn(4) == 0 {
+		gt := reflect.TypeOf(config.GlobalConfig{})
+		var cands [][2]string // global key, receiver list key
+		for i := 0; i < gt.NumField(); i++ {
+			name, _, skip := yamlName(gt.Field(i))
+			if skip || !strings.HasSuffix(name, "_url") {
+				continue
+			}
+			prefix := name[:strings.Index(name, "_")]
+			for _, f := range kinds {
+				if ln, _, _ := yamlName(f); ln == prefix+"_configs" {
+					cands = append(cands, [2]string{name, ln})
+				}
+			}
+		}
+		if len(cands) > 0 {
+			c := cands[r.Intn(len(cands))]
+			gl[c[0]] = []any{nil, "", map[string]any{}}[r.Intn(3)]
+			item := map[string]any{}
+			if r.Intn(2) == 0 {
+				for _, f := range kinds {
+					if ln, _, _ := yamlName(f); ln == c[1] {
+						et := f.Type.Elem()
+						if et.Kind() == reflect.Ptr {
+							et = et.Elem()
+						}
+						item = g.strct(et, 2)
+						for k := range item {
+							if strings.Contains(k, "url") {
+								delete(item, k)
+							}
+						}
+					}
+				}
+			}
+			recv[c[1]] = []any{item}
+		}
+	}
 	doc["receivers"] = []any{recv}
 	doc["route"] = map[string]any{"receiver": "r0"}
 	if r.Intn(6) == 0 {
